@@ -1,5 +1,7 @@
 package protocol
 
+import "context"
+
 // C17 — authentication capability negotiation follows the configured requirements.
 
 //vp:property C17
@@ -150,4 +152,39 @@ func VP_C17_two_tunnels() {
 	// what the slow client reads is what was built for it: the bytes handed to its connection do not change
 	// while they are being sent
 	vpAssert(trA.corrupted == 0 && trB.corrupted == 0, "a-response-does-not-change-while-it-is-in-flight-to-its-client")
+}
+
+//vp:property C02 C07 C10
+//vp:bounds two tunnels on one Gateway, one after the other: client A presents the access cookie "AB" (accepted by the cookie check); client B then sends a tunnel-create that announces a cookie of the same length but carries only 0..2 of its four bytes (symbolic)
+//vp:assume the cookie callback accepts exactly "AB"
+//vp:reach second-checked
+func VP_C02_cookie_comes_from_the_packet() {
+	vpResetC01()
+	var cookies []string
+	gw := &Gateway{TokenAuth: true}
+	gw.CheckPAACookie = func(ctx context.Context, c string) (bool, error) {
+		cookies = append(cookies, c)
+		return c == "AB", nil
+	}
+	run := func(tunnelCreate []byte) *vpTransport {
+		tr := &vpTransport{in: [][]byte{vpPacket(PKT_TYPE_HANDSHAKE_REQUEST, []byte{1, 0, 0, 0, 2, 0}), vpPacket(PKT_TYPE_TUNNEL_CREATE, tunnelCreate)}}
+		tun := &Tunnel{transportIn: tr, transportOut: tr, User: vpUser()}
+		NewProcessor(gw, tun).Process(vpCtx())
+		return tr
+	}
+	trA := run([]byte{0, 0, 0, 0, 1, 0, 0, 0, 4, 0, 'A', 0, 'B', 0})
+	vpAssert(len(cookies) == 1 && cookies[0] == "AB" && len(trA.out) == 2 && vpLE32(trA.out[1], 10) == 0, "first-client-is-accepted-with-its-cookie")
+	k := vpIntRange("cookie-bytes-carried", 0, 2)
+	body := []byte{0, 0, 0, 0, 1, 0, 0, 0, 4, 0}
+	for i := 0; i < k; i++ {
+		body = append(body, vpU8("carried-"+string([]byte{byte(0x30 + i)})))
+	}
+	trB := run(body)
+	vpReach("second-checked")
+	// what the cookie check sees for B is made of B's own bytes: with at most two of four bytes carried it
+	// cannot be A's cookie, and B is refused
+	for i := 1; i < len(cookies); i++ {
+		vpAssert(cookies[i] != "AB", "cookie-shown-to-the-check-comes-from-this-clients-packet")
+	}
+	vpAssert(len(trB.out) == 2 && len(trB.out[1]) >= 14 && vpLE32(trB.out[1], 10) != 0, "a-client-that-carries-no-cookie-is-refused")
 }
